@@ -253,6 +253,146 @@ class Built:
         self.ty(T)
 
 
+# ------------------------------------------------------------------------------------------------
+# real source modules (postponed annotations; user types named like things `typing` exports) ------
+
+TYPING_ENUM_NAMES = ["Type", "Text", "Pattern", "Match", "Final", "Color"]
+TYPING_CLASS_NAMES = ["Container", "Counter", "Collection", "Mapping", "Sequence", "Iterable", "Generic", "Hashable",
+                      "Item", "Config"]
+SRC_HEADER = """import enum
+from dataclasses import dataclass, field
+from pathlib import Path
+from typing import Dict, List, Optional, Set, Tuple
+
+from simple_parsing.helpers import FrozenSerializable, Serializable
+"""
+
+
+def rename_cls(j, mapping):
+    """Rename classes / enums consistently in a type spec or a value."""
+    if isinstance(j, dict):
+        out = {k: rename_cls(v, mapping) for k, v in j.items()}
+        if isinstance(j.get("cls"), str) and j["cls"] in mapping:
+            out["cls"] = mapping[j["cls"]]
+        return out
+    if isinstance(j, list):
+        return [rename_cls(x, mapping) for x in j]
+    return j
+
+
+def render_annotation(T, builtin_generics: bool) -> str:
+    k = T["k"]
+    r = lambda t: render_annotation(t, builtin_generics)  # noqa: E731
+    if k in ("int", "float", "str", "bool"):
+        return k
+    if k == "path":
+        return "Path"
+    if k in ("enum", "dc"):
+        return T["cls"]
+    if k == "list":
+        return f"list[{r(T['item'])}]" if builtin_generics else f"List[{r(T['item'])}]"
+    if k == "set":
+        return f"Set[{r(T['item'])}]"
+    if k == "vtuple":
+        return f"Tuple[{r(T['item'])}, ...]"
+    if k == "tuple":
+        return "Tuple[" + ", ".join(r(t) for t in T["items"]) + "]" if T["items"] else "Tuple[()]"
+    if k == "dict":
+        return (f"dict[{r(T['key'])}, {r(T['val'])}]" if builtin_generics else f"Dict[{r(T['key'])}, {r(T['val'])}]")
+    if k == "opt":
+        return f"Optional[{r(T['inner'])}]"
+    raise ValueError(f"no source rendering for {k}")
+
+
+def render_module(T, postponed: bool, builtin_generics: bool) -> str:
+    """Source of a module that defines every enum / dataclass of the tree T (dependencies first)."""
+    enums, classes = {}, {}
+
+    def walk(t):
+        k = t["k"]
+        if k == "enum":
+            enums.setdefault(t["cls"], t)
+        for sub in ("item", "inner", "key", "val"):
+            if sub in t:
+                walk(t[sub])
+        for u in t.get("items", []):
+            walk(u)
+        if k == "dc":
+            for f in t["fields"]:
+                walk(f["ty"])
+            classes.setdefault(t["cls"], t)
+
+    walk(T)
+    out = (["from __future__ import annotations", ""] if postponed else []) + [SRC_HEADER, ""]
+    for name, e in enums.items():
+        out.append(f"class {name}(enum.Enum):")
+        out += [f"    {m} = {i + 1}" for i, m in enumerate(e["members"])]
+        out.append("")
+    for name, c in classes.items():
+        base = c.get("base", "plain")
+        out.append("@dataclass(frozen=True, kw_only=True)" if base == "Frozen" else "@dataclass(kw_only=True)")
+        out.append(f"class {name}" + {"Serializable": "(Serializable)", "Frozen": "(FrozenSerializable)", "plain": ""}[base] + ":")
+        for f in c["fields"]:
+            out.append(f"    {f['name']}: {render_annotation(f['ty'], builtin_generics)}")
+        out.append("")
+    return "\n".join(out) + "\n"
+
+
+class SrcBuilt(Built):
+    """The classes of a case, defined by a real source module written to `directory` and imported."""
+
+    def __init__(self, T, src: dict, directory: str):
+        import importlib
+        import sys
+
+        super().__init__()
+        self.suffix = "\x00no-suffix"
+        self.modname = f"spv_src_{os.getpid()}_{next(_COUNTER)}"
+        self.directory = directory
+        with open(os.path.join(directory, self.modname + ".py"), "w", encoding="utf-8") as fh:
+            fh.write(render_module(T, src.get("postponed", True), src.get("builtin_generics", True)))
+        sys.path.insert(0, directory)
+        try:
+            with warnings.catch_warnings():
+                warnings.simplefilter("ignore")
+                self.module = importlib.import_module(self.modname)
+        finally:
+            sys.path.remove(directory)
+        for name, obj in vars(self.module).items():
+            if isinstance(obj, type) and obj.__module__ == self.modname:
+                (self.enums if issubclass(obj, enum.Enum) else self.classes)[name] = obj
+
+    def close(self):
+        import sys
+
+        sys.modules.pop(self.modname, None)
+
+
+def gen_src_case(rng, depth):
+    """A class tree for a generated source module: no Union / Literal / hooks / defaults, user types renamed to names
+    that `typing` also exports (Type, Text, Container, Counter, ...)."""
+    ctx = Ctx(rng)
+    ctx.src_mode = True
+    T = gen_class(ctx, depth, base=rng.choice(["Serializable", "Serializable", "Frozen", "plain"]))
+    cls_names = rng.sample(TYPING_CLASS_NAMES, min(ctx.n_cls, len(TYPING_CLASS_NAMES)))
+    mapping = {f"K{i + 1}": (cls_names[i] if i < len(cls_names) else f"K{i + 1}") for i in range(ctx.n_cls)}
+    mapping.update(dict(zip([e[0] for e in ENUMS], rng.sample(TYPING_ENUM_NAMES, len(ENUMS)))))
+
+    def strip_defaults(t):
+        if isinstance(t, dict):
+            t = {k: strip_defaults(v) for k, v in t.items()}
+            if "fields" in t:
+                t["fields"] = [dict(f, default=None) for f in t["fields"]]
+            return t
+        if isinstance(t, list):
+            return [strip_defaults(x) for x in t]
+        return t
+
+    T = strip_defaults(rename_cls(T, mapping))
+    x = gen_value(rng, T)
+    return T, x, {"postponed": rng.random() < 0.85, "builtin_generics": rng.random() < 0.5}
+
+
 def collect_enums(T: dict, b: Built):
     b.declare(T)
 
@@ -280,10 +420,11 @@ def T_(k, **kw):
     return dict(k=k, **kw)
 
 
-def gen_leaf(rng, hashable_only=False, key=False):
+def gen_leaf(rng, hashable_only=False, key=False, no_literal=False):
     kinds = ["int", "str", "bool", "enum", "path"] if key else (
         ["int", "str", "bool", "enum", "path", "float"] if hashable_only else
-        ["int", "int", "str", "str", "bool", "float", "enum", "path", "literal"])
+        (["int", "int", "str", "str", "bool", "float", "enum", "enum", "path"] if no_literal else
+         ["int", "int", "str", "str", "bool", "float", "enum", "path", "literal"]))
     k = rng.choice(kinds)
     if k == "enum":
         c, m = rng.choice(ENUMS)
@@ -306,6 +447,7 @@ class Ctx:
         self.rng = rng
         self.n_cls = 0
         self.unions = {}
+        self.src_mode = False   # source-module stream: no Union / Literal, more enums and nested classes
         self.allow_tuple_keys = allow_tuple_keys
         self.allow_hooks = allow_hooks
         self.allow_hidden = allow_hidden
@@ -346,10 +488,10 @@ def make_opt(T, ctx=None):
 def gen_type(ctx: Ctx, depth: int):
     rng = ctx.rng
     if depth <= 0:
-        return gen_leaf(rng)
+        return gen_leaf(rng, no_literal=ctx.src_mode)
     r = rng.random()
-    if r < 0.25:
-        return gen_leaf(rng)
+    if r < 0.25 or (ctx.src_mode and 0.33 <= r < 0.40):
+        return gen_leaf(rng, no_literal=ctx.src_mode)
     if r < 0.33:
         return make_opt(gen_type(ctx, depth - 1), ctx)
     if r < 0.40:
@@ -393,7 +535,8 @@ def gen_class(ctx: Ctx, depth: int, n_fields=None, base=None):
             f["default"] = gen_value(rng, ty)
         if ctx.allow_hidden and f["default"] is not None and rng.random() < 0.3:
             f["to_dict"] = False
-        elif ctx.allow_hooks and ty["k"] in ("int", "str", "bool", "float") and rng.random() < 0.35:
+        # hooks are drawn independently of to_dict=False: one field may carry both
+        if ctx.allow_hooks and ty["k"] in ("int", "str", "bool", "float") and rng.random() < 0.35:
             e = rng.choice(ENC_HOOKS)
             f["enc"] = e
             f["dec"] = DEC_FOR_ENC.get(e, 22) if rng.random() < 0.8 else None
@@ -511,6 +654,8 @@ PID = "C05"
 RULE = ("cases: (a) ser.route — a generated dataclass tree (Serializable / FrozenSerializable / plain; fields over the C05 type "
         "grammar nested to depth <= 3 quick / 4 thorough) with a generated instance, sent through all seven real routes "
         "(to_dict/from_dict, dumps_json/loads_json, dumps_yaml/loads_yaml, save/load x .json/.yaml/.yml/.pkl in a temp dir); "
+        "(a') the same through a generated real source module (unique module name, per-case temp dir) with `from __future__ import "
+        "annotations`, user enums / dataclasses named like things `typing` exports (Type, Text, Container, Counter, ...), list[...] / List[...]; "
         "(b) ser.decode lenient — the generator's own plain encoding of the same instance with ints/floats/bools at "
         "int/float/bool-typed positions rewritten as strings, decoded with the real from_dict; (c) ser.decode union-member — a "
         "primitive that is an instance of one Union member given to the real Union decoder; (d) ser.decode malformed — random "
@@ -634,6 +779,13 @@ def gen(rng, tier):
         yield {"op": "ser.route", "case": {"ty": T, "x": x}}
         if i % 2 == 0 and not has_kind(T, lambda t: t["k"] == "dict" and t["key"]["k"] in ("tuple", "vtuple")):
             yield {"op": "ser.decode", "case": {"kind": "lenient", "ty": T, "raw": lenient(rng, T, x), "expect": x}}
+    # real source modules with postponed annotations and user types named like `typing` exports
+    n_src = 120 if quick else 2500
+    for _ in range(n_src):
+        T, x, src = gen_src_case(rng, rng.choice([0, 1, 1, 2, 2]))
+        if has_kind(T, lambda t: t["k"] == "dict" and t["key"]["k"] in ("tuple", "vtuple")):
+            continue
+        yield {"op": "ser.route", "case": {"ty": T, "x": x, "src": src}}
     # a very large int (beyond the float range) in an int field
     for n in ([2**1024] if quick else [2**1024, -(2**1024), 10**400, 2**1024 - 2**970, 2**1024 - 2**970 - 1]):
         T = T_("dc", cls="K1", base="Serializable", reg=True,
@@ -713,7 +865,16 @@ def _routes(cls, x, tmp):
 
 def impl(case):
     import json
+    import tempfile
 
+    src = case["case"].get("src")
+    if src is not None:
+        with tempfile.TemporaryDirectory(prefix=f"spverif.{os.getpid()}.src.") as d:
+            b = SrcBuilt(case["case"]["ty"], src, d)
+            try:
+                return json.loads(json.dumps(_impl(case, b)))
+            finally:
+                b.close()
     b = Built()
     obs = _impl(case, b)
     # real classes carry a per-process suffix; it shows up only in str(EnumMember)
@@ -944,6 +1105,8 @@ def tags(case, obs):
         t += [f"kind:{k}" for k in sorted(type_kinds(T))]
         t.append(f"depth:{type_depth(T)}")
         t.append(f"fields:{len(T['fields'])}")
+        if c.get("src") is not None:
+            t.append("src:" + ("postponed" if c["src"].get("postponed") else "eager") + ("+builtin-generics" if c["src"].get("builtin_generics") else ""))
         outs = {o["o"] if o["o"] == "ok" else "raise:" + str(o.get("exc")) for o in obs["routes"].values()}
         t += [f"out:{o}" for o in sorted(outs)]
     elif op == "ser.decode":
